@@ -3,7 +3,7 @@ from bundlelib import *
 from sxglib import oracle_tables
 import re
 
-THEOREMS = ['C06.authority_invariant', 'C06.honest_verifies', 'C06.verify_sound', 'C06.signedMessage_injective']
+THEOREMS = ['C06.authority_invariant', 'C06.authority_points_to_own_leaf', 'C06.honest_verifies', 'C06.verify_sound', 'C06.subset_checked_before_trusted', 'C06.signedMessage_injective']
 TRUSTED = ['ECDSA and SHA-256 are parameters; every signature verdict the model uses comes from the independent strict-DER oracle (oracle.sig) on the message the MODEL computes, so a signer/verifier that builds another message disagrees',
            'x509 VerifyHostname (CanSignForURL) is the parameter canSign, answered by oracle.cansign', 'net/url.Parse of the validity URL (oracle.url)']
 ASSUMPTIONS = ['sequences of signers use certificates with disjoint coverage (a second signer covering an exchange that already carries a Digest header fails by design: expected error on both sides)',
